@@ -26,8 +26,19 @@ type c11Arg struct {
 }
 
 func c11Place(t *rapid.T, name string, content []byte) *c11Arg {
-	a := &c11Arg{name: name, place: gen.Pick(t, name+".place", "end", "end", "end-overcap", "start", "heap")}
+	a := &c11Arg{name: name, place: gen.Pick(t, name+".place", "end", "end", "end-overcap", "start", "heap", "across-2^32")}
+	if a.place == "across-2^32" && (name != "input" || len(content) == 0 || len(content) > 60000) {
+		a.place = "end" // one argument per call can lie in the shared mapping around a 2^32-aligned address: the message
+	}
 	switch a.place {
+	case "across-2^32":
+		// the message lies across an address that is a multiple of 2^32 (its pointers differ in the upper half on the two sides)
+		if m := guard.Across4G(len(content), gen.Uniform(t, name+".before", 0, len(content)), content); m != nil {
+			a.b = m
+			return a
+		}
+		a.place = "heap"
+		a.b = append([]byte(nil), content...)
 	case "end":
 		a.buf = guard.End(len(content)).Fill(content)
 		a.b = a.buf.B
